@@ -46,7 +46,7 @@ def conclude(agg):
             r.append(f'm={m}: only {len(agg["sets"].get(f"prims_m{m}", ()))} of 33 primitives executed')
         if c.get(f'allprims_lanes_m{m}', 0) < (256 if m == 4 else 4096):
             r.append(f'm={m}: exhaustive all-primitives run missing')
-    for k in ('lane_checks', 'internal_line_checks', 'binary_under_unknown', 'completions_checked', 'initfinal_checks', 'reached/m4-mux', 'reached/m8-mux'):
+    for k in ('lane_checks', 'internal_line_checks', 'binary_under_unknown', 'completions_checked', 'initfinal_checks', 'reached/m4-mux', 'reached/m8-mux', 'reused_simulator_cases'):
         if c.get(k, 0) == 0:
             r.append(f'monitor counter {k} is zero')
     return r
@@ -61,7 +61,7 @@ def gen_case(rng, spec, idx):
     net = G.gen_net(rng, feats=feats, max_gates=rng.choice([12, 30, 60]))
     return {'net': net, 'm': rng.choice([4, 8]), 'c_reuse': rng.random() < 0.5, 'strip_forks': rng.random() < 0.4,
             'sims': rng.choice([1, 3, 8, 9, 17, 33, 64, 67, rng.randint(1, 67)]), 'vec': 'rand', 'vseed': rng.randrange(1 << 30), 'feats': feats,
-            'punk': rng.choice([0.0, 0.1, 0.3, 0.6])}
+            'punk': rng.choice([0.0, 0.1, 0.3, 0.6]), 'reuse_sim': rng.random() < 0.3}
 
 
 def stimulus(case):
@@ -109,6 +109,14 @@ def check_case(case, ctx):
         for kind, name in b.s_order:
             rows.append(assign[name] if kind != 'out' else [2] * n)
         bp = to_bp(np.array(rows, dtype=np.uint8), 3)
+        if case.get('reuse_sim'):
+            # the simulator object was used before with another assignment (as in pattern batches): nothing may carry over
+            r0 = random.Random(case['vseed'] ^ 0x77)
+            sim.s[0] = to_bp(np.array([[r0.randrange(4 if m == 4 else 8) for _ in range(n)] for _ in b.s_order], dtype=np.uint8), 3)
+            sim.s_to_c()
+            sim.c_prop()
+            sim.c_to_s()
+            ctx.count('reused_simulator_cases')
         sim.s[0] = bp
         sim.s_to_c()
         sim.c_prop()
